@@ -195,6 +195,25 @@ impl Gen {
     if rng.below(100) < self.comment_rate {
       let unique = format!("a comment that occurs only here {}", rng.below(1_000_000));
       let text: &str = if rng.chance(1, 2) { *rng.pick(COMMENT_TEXT) } else { &unique };
+      if rng.chance(1, 12) {
+        // degenerate and multi-line comment forms: what an editor's auto-close leaves behind
+        // (`/**/`), boxed banners, lines that end in a star, an empty line comment
+        let form = *rng.pick(&[
+          "/**/",
+          "/***/",
+          "/* */",
+          "/** */",
+          "//",
+          "/*\n * a boxed banner\n *\n * with an empty starred line\n */",
+          "/**\n * documentation over several lines\n *\n * and a second paragraph\n */",
+          "/* two\n   lines */",
+          "/****************\n * banner *\n ****************/",
+        ]);
+        if doc_ok || !form.starts_with("/**") || form == "/**/" {
+          out.push_str(&format!("{indent}{form}\n"));
+          return;
+        }
+      }
       match rng.below(if doc_ok { 3 } else { 2 }) {
         0 => out.push_str(&format!("{indent}// {text}\n")),
         1 => out.push_str(&format!("{indent}/* {text} */\n")),
